@@ -6,6 +6,7 @@
 //
 //	L  rootmulti.Store.LoadLazyVersion(h)              (what Context.PrevCtx uses)
 //	C  rootmulti.Store.CacheMultiStoreWithVersion(h)   (what ABCI queries with a height use)
+//	P  sdk.Context.PrevCtx(h)                          (real block store on MemDB; reads through ctx.KVStore)
 //	I  MutableTree.GetImmutable(h) per substore        (immutable trees; via the verif hook)
 //	Q  rootmulti.Store.Query("/<store>/key", height h) (not held: one-shot)
 //
@@ -21,13 +22,18 @@ import (
 	"fmt"
 	"sort"
 	"strings"
+	"time"
 
 	abci "github.com/tendermint/tendermint/abci/types"
+	"github.com/tendermint/tendermint/libs/log"
+	tmStore "github.com/tendermint/tendermint/store"
+	tmtypes "github.com/tendermint/tendermint/types"
 	dbm "github.com/tendermint/tm-db"
 
 	"github.com/pokt-network/pocket-core/store/iavl"
 	"github.com/pokt-network/pocket-core/store/rootmulti"
 	"github.com/pokt-network/pocket-core/store/types"
+	sdk "github.com/pokt-network/pocket-core/types"
 	"verifharness/internal/gen"
 )
 
@@ -35,11 +41,12 @@ const nStores = 2
 
 type view struct {
 	id     int
-	kind   string // L | C | I
+	kind   string // L | C | P | I
 	h      int64
 	ms     types.MultiStore             // L, C
 	its    [nStores]*iavl.ImmutableTree // I
 	opened int                          // op counter at open time
+	ctx    sdk.Context                  // P
 }
 
 type openIter struct {
@@ -53,6 +60,8 @@ type H struct {
 	rs     *rootmulti.Store
 	keys   [nStores]*types.KVStoreKey
 	tkey   *types.TransientStoreKey
+	bs     *tmStore.BlockStore
+	lastID tmtypes.BlockID
 	space  [][]byte
 	extra  [][]byte
 	views  []*view
@@ -116,6 +125,9 @@ func (h *H) kv(v *view, i int) types.KVStore {
 	if v.kind == "I" {
 		return nil
 	}
+	if v.kind == "P" {
+		return v.ctx.KVStore(h.keys[i])
+	}
 	return v.ms.GetKVStore(h.keys[i])
 }
 
@@ -164,12 +176,33 @@ func (h *H) doCommit() {
 		// something in the transient store too: it must not leak anywhere
 		ts := h.rs.GetKVStore(h.tkey)
 		_ = ts.Set([]byte{0x01}, []byte{byte(h.height)})
+		h.saveBlock(h.height + 1)
 		id := h.rs.Commit()
 		h.height = id.Version
 		return fmt.Sprint(id.Version)
 	})
 	h.ops++
 	h.t.Line("commit", true, "commit => %s", res)
+}
+
+// saveBlock puts block `height` into the block store, as Tendermint does before the block is
+// executed and committed as store version `height` (PrevCtx needs its meta).
+func (h *H) saveBlock(height int64) {
+	lastCommit := tmtypes.NewCommit(h.lastID, nil)
+	blk := &tmtypes.Block{
+		Header: tmtypes.Header{
+			ChainID: "verif", Height: height, Time: time.Unix(1600000000+height*60, 0).UTC(),
+			LastBlockID:    h.lastID,
+			ValidatorsHash: []byte("verif-validators-hash-0000000000"), NextValidatorsHash: []byte("verif-validators-hash-0000000000"),
+			ConsensusHash: []byte("verif-consensus-hash-00000000000"),
+		},
+		LastCommit: lastCommit,
+	}
+	blk.Header.LastCommitHash = lastCommit.Hash()
+	parts := blk.MakePartSet(65536)
+	bid := tmtypes.BlockID{Hash: blk.Hash(), PartsHeader: parts.Header()}
+	h.bs.SaveBlock(blk, parts, tmtypes.NewCommit(bid, nil))
+	h.lastID = bid
 }
 
 // ---------------------------------------------------------------- views
@@ -185,6 +218,15 @@ func (h *H) openView(kind string, ht int64) {
 				return "err"
 			}
 			v.ms = (*ms).(types.MultiStore)
+		case "P":
+			// the context of the block being executed (height = committed version + 1)
+			cur := sdk.NewContext(h.rs, abci.Header{ChainID: "verif", Height: h.height + 1}, false, log.NewNopLogger()).WithBlockStore(h.bs)
+			prev, err := cur.PrevCtx(ht)
+			if err != nil {
+				return "err"
+			}
+			v.ctx = prev
+			v.ms = prev.MultiStore()
 		case "C":
 			cms, err := h.rs.CacheMultiStoreWithVersion(ht)
 			if err != nil {
@@ -416,6 +458,7 @@ func main() {
 	cacheOn := flag.Bool("hcache", false, "enable the height cache (MultiStoreMemoryCache) of the multistore")
 	iavlCache := flag.Int64("cache", 0, "iavl node cache size (0 = package default)")
 	nkeys := flag.Int("keys", 24, "key space size")
+	ctxCache := flag.Int("ctxcache", 5, "size of sdk.GlobalCtxCache (PrevCtx contexts)")
 	flag.Parse()
 
 	h := &H{r: gen.New(*seed), t: gen.NewTrace(*out), dirtySince: map[int]int{}}
@@ -430,6 +473,8 @@ func main() {
 	if err := h.rs.LoadLatestVersion(); err != nil {
 		panic(err)
 	}
+	h.bs = tmStore.NewBlockStore(dbm.NewMemDB())
+	sdk.InitCtxCache(*ctxCache)
 	// key space: short colliding keys
 	alphabet := []byte{0x00, 0x01, 0x7f, 0xff}
 	for len(h.space) < *nkeys {
@@ -480,7 +525,12 @@ func main() {
 			if len(h.views) >= 8 {
 				h.dropView()
 			}
-			h.openView([]string{"L", "C", "I"}[h.r.Intn(3)], ht)
+			kind := []string{"L", "C", "I", "P"}[h.r.Intn(4)]
+			if kind == "P" && ht == h.height+1 {
+				// PrevCtx(current block height) is by definition the live context, not a historical view
+				ht++
+			}
+			h.openView(kind, ht)
 		case x < 66:
 			if len(h.iters) > 0 {
 				h.iterClose(h.r.Intn(len(h.iters)))
